@@ -338,71 +338,156 @@ class Body:
         return self._flags
 
     def _has_corr(self):
-        return bool(self.j.get("corr")) or bool(self._flag_locals())
+        if getattr(self, "_hc", None) is None:
+            self._hc = bool(self._corr_tables()[1])
+        return self._hc
+
+    # ---- path correlation of variant- / bool-valued locals -------------------------------------------------------------
+    # A local whose definitions are all "constructor known" (an aggregate `Ok(..)` / `Err(..)` / `Some(..)` / `None` /
+    # `ControlFlow::Break(..)`, a constant bool, `from_residual(..)`, or a move of another such local) carries that constructor
+    # along the path that defined it; a later test of the local (discriminant switch, `?`, is_ok / is_break / .., `if flag`)
+    # can only take the matching edge on that path.  Used for spliced helper / closure results, `matches!` flags,
+    # `let outcome = iter.try_for_each(..); if outcome.is_break() {..}`.
+    _POS = {"Ok": "Continue", "Some": "Continue", "Continue": "Continue"}
+    _NEG = {"Err": "Break", "None": "Break", "Break": "Break"}
+    _IS_FNS = {"is_ok": ("Ok",), "is_err": ("Err",), "is_some": ("Some",), "is_none": ("None",), "is_break": ("Break",), "is_continue": ("Continue",)}
+
+    def _corr_vars(self):
+        if getattr(self, "_cv", None) is not None:
+            return self._cv
+        defs = self.defs()
+        seeds = set(self._flag_locals())
+        for c in self.j.get("corr", []):
+            seeds.add(c["ret"])
+            seeds.add(c["dest"])
+
+        def kind(d, known):
+            """('tag', name) | ('copy', local) | None for one definition"""
+            if d[0] == "assign":
+                rv = d[3]
+                if rv.get("agg") == "adt" and rv.get("variant"):
+                    return ("tag", rv["variant"])
+                if "use" in rv:
+                    u = rv["use"]
+                    if "const" in u and "bool" in u["const"]:
+                        return ("tag", "true" if u["const"]["bool"] else "false")
+                    pl = u.get("move") or u.get("copy")
+                    if pl is not None and not pl["p"] and pl["l"] in known:
+                        return ("copy", pl["l"])
+            elif d[0] == "call" and d[2].fn == "core::ops::try_trait::FromResidual::from_residual":
+                return ("tag", "Err")
+            return None
+        # fixpoint: candidate = every definition is interpretable (given the current candidate set); seeds stay candidates anyway
+        cand = set(l for l, ds in defs.items() if l != 0 and ds and len(ds) <= 12)
+        for l in list(cand):
+            if any(fw[2]["l"] == l for fw in self.field_writes):
+                cand.discard(l)
+        changed = True
+        while changed:
+            changed = False
+            for l in list(cand):
+                if l in seeds:
+                    continue
+                if any(kind(d, cand) is None for d in defs.get(l, [])):
+                    cand.discard(l)
+                    changed = True
+        # only keep variables with at least two distinct outcomes somewhere up their copy chain, or seeds
+        self._cv = cand | seeds
+        self._cv_kind = kind
+        return self._cv
 
     def _corr_tables(self):
-        """For inlined helpers: (block -> (ret_local, 'Ok'|'Err')) for definitions of the helper's return place, and
-        (switch block -> (ret_local, {edge label: 'Ok'|'Err'})) for the anchor's test of that Result."""
+        """(block -> [(var, ('tag', name) | ('copy', var) | None)], switch block -> (var, {edge label: set of admissible tags}))"""
         if self._corr is not None:
             return self._corr
+        cv = self._corr_vars()
+        kind = self._cv_kind
         defs_tag, sw_tag = {}, {}
-        for c in list(self.j.get("corr", [])) + [{"ret": l, "dest": l} for l in self._flag_locals()]:
-            ret, dest = c["ret"], c["dest"]
-            for d in self.defs().get(ret, []):
-                tag = None
-                if d[0] == "assign":
-                    rv = d[3]
-                    if rv.get("agg") == "adt" and rv.get("variant") in ("Ok", "Err"):
-                        tag = rv["variant"]
-                    elif "use" in rv and "const" in rv["use"] and "bool" in rv["use"]["const"]:
-                        tag = "true" if rv["use"]["const"]["bool"] else "false"
-                elif d[0] == "call" and d[2].fn == "core::ops::try_trait::FromResidual::from_residual":
-                    tag = "Err"
-                # an uninterpretable definition resets the knowledge (tag None)
-                defs_tag[d[1]] = (ret, tag)
-            for bb in self.normal_blocks():
-                if self.blocks[bb]["term"]["k"] != "switch":
+        for l in cv:
+            for d in self.defs().get(l, []):
+                defs_tag.setdefault(d[1], []).append((d[2] if d[0] == "assign" else 10 ** 6, l, kind(d, cv)))
+        for bb in list(defs_tag):
+            defs_tag[bb] = [(l, k) for (_, l, k) in sorted(defs_tag[bb], key=lambda x: x[0])]
+
+        def var_of(x):
+            n = 0
+            while x[0] in ("ref", "deref") and n < 6:
+                x = x[1]
+                n += 1
+            n2 = 0
+            while x[0] == "phi" and x[1] not in cv and len(x) > 3 and len(x[3]) == 1 and n2 < 4:
+                x = x[3][0]
+                n2 += 1
+            if x[0] in ("local", "phi") and x[1] in cv:
+                return x[1]
+            return None
+        for bb in self.normal_blocks():
+            if self.blocks[bb]["term"]["k"] != "switch":
+                continue
+            si = self.switch_info(bb)
+            if not si:
+                continue
+            cond = si["cond"]
+            if si["kind"] == "bool":
+                v = var_of(cond)
+                if v is not None:
+                    sw_tag[bb] = (v, {lab: {"true" if mean else "false"} for (t, lab, mean) in si["edges"] if isinstance(mean, bool)})
                     continue
-                si = self.switch_info(bb)
-                if not si:
+                if cond[0] == "call" and cond[2]:
+                    name = cond[1].fn.split("::")[-1]
+                    if name in self._IS_FNS:
+                        v = var_of(cond[2][0])
+                        if v is not None:
+                            yes = set(self._IS_FNS[name])
+                            fam = {"is_ok": {"Ok", "Err"}, "is_err": {"Ok", "Err"}, "is_some": {"Some", "None"}, "is_none": {"Some", "None"},
+                                   "is_break": {"Break", "Continue"}, "is_continue": {"Break", "Continue"}}[name]
+                            sw_tag[bb] = (v, {lab: (yes if mean else fam - yes) for (t, lab, mean) in si["edges"] if isinstance(mean, bool)})
+                continue
+            if si["kind"] != "variant":
+                continue
+            x = cond
+            via_try = False
+            n = 0
+            while x[0] in ("ref", "deref", "call") and n < 6:
+                n += 1
+                if x[0] == "call":
+                    if x[1].fn != "core::ops::try_trait::Try::branch" or not x[2]:
+                        break
+                    via_try = True
+                    x = x[2][0]
+                else:
+                    x = x[1]
+            v = var_of(x)
+            if v is None:
+                continue
+            m = {}
+            for (t, lab, mean) in si["edges"]:
+                ms = set(mean) if isinstance(mean, tuple) else {mean}
+                ms.discard(None)
+                if not ms:
                     continue
-                if si["kind"] == "bool":
-                    x = si["cond"]
-                    n = 0
-                    while x[0] in ("ref", "deref") and n < 6:
-                        x = x[1]
-                        n += 1
-                    if x[0] in ("local", "phi") and x[1] in (ret, dest):
-                        sw_tag[bb] = (ret, {lab: ("true" if mean else "false") for (t, lab, mean) in si["edges"] if isinstance(mean, bool)})
-                    continue
-                if si["kind"] != "variant":
-                    continue
-                cond = si["cond"]
-                # Try::branch(dest) / discriminant(dest)
-                x = cond
-                n = 0
-                while x[0] in ("ref", "deref", "call") and n < 6:
-                    n += 1
-                    if x[0] == "call":
-                        if x[1].fn != "core::ops::try_trait::Try::branch" or not x[2]:
-                            break
-                        x = x[2][0]
-                    else:
-                        x = x[1]
-                n2 = 0
-                while x[0] == "phi" and x[1] not in (ret, dest) and len(x) > 3 and len(x[3]) == 1 and n2 < 4:
-                    # a forwarding temporary (`_t = move result`) whose single alternative is the correlated local
-                    x = x[3][0]
-                    n2 += 1
-                if x[0] == "phi" and x[1] == ret or (x[0] in ("local", "phi") and x[1] in (ret, dest)):
-                    m = {}
-                    for (t, lab, mean) in si["edges"]:
-                        ms = mean if isinstance(mean, tuple) else (mean,)
-                        if all(y in ("Ok", "Continue") for y in ms) and ms:
-                            m[lab] = "Ok"
-                        elif all(y in ("Err", "Break") for y in ms) and ms:
-                            m[lab] = "Err"
-                    sw_tag[bb] = (ret, m)
+                if via_try:
+                    adm = set()
+                    if "Continue" in ms:
+                        adm |= {"Ok", "Some", "Continue"}
+                    if "Break" in ms:
+                        adm |= {"Err", "None", "Break"}
+                    m[lab] = adm
+                else:
+                    m[lab] = ms
+            sw_tag[bb] = (v, m)
+        # only variables that are tested somewhere (and the variables their value is copied from) are worth tracking
+        need = {v for (v, m) in sw_tag.values()}
+        grew = True
+        while grew:
+            grew = False
+            for bb, ups in defs_tag.items():
+                for (l, k) in ups:
+                    if l in need and k is not None and k[0] == "copy" and k[1] not in need:
+                        need.add(k[1])
+                        grew = True
+        defs_tag = {bb: [(l, k) for (l, k) in ups if l in need] for bb, ups in defs_tag.items()}
+        defs_tag = {bb: ups for bb, ups in defs_tag.items() if ups}
         self._corr = (defs_tag, sw_tag)
         return self._corr
 
@@ -426,15 +511,22 @@ class Body:
                     dq.append(t)
         return seen
 
-    MAX_CORR_VARS = 4
+    MAX_CORR_VARS = 6
 
     @staticmethod
-    def _corr_update(state, d):
-        """state: tuple of (var, tag) pairs, most recent last.  A new definition of `var` replaces its entry (tag None = unknown)."""
-        var, tag = d
-        st = tuple(x for x in state if x[0] != var)
-        if tag is not None:
-            st = st + ((var, tag),)
+    def _corr_update(state, updates):
+        """state: tuple of (var, tag) pairs, most recent last; updates: [(var, ('tag', name) | ('copy', var) | None)] in statement order."""
+        st = state
+        for (var, k) in updates:
+            known = dict(st)
+            st = tuple(x for x in st if x[0] != var)
+            tag = None
+            if k is not None and k[0] == "tag":
+                tag = k[1]
+            elif k is not None and k[0] == "copy":
+                tag = known.get(k[1])
+            if tag is not None:
+                st = st + ((var, tag),)
         return st[-Body.MAX_CORR_VARS:]
 
     def _corr_walk(self, start_states, removed_blocks, removed_edges):
@@ -451,7 +543,7 @@ class Body:
                     continue
                 if b in sw_tag and sw_tag[b][0] in known:
                     want = sw_tag[b][1].get(lab)
-                    if want is not None and want != known[sw_tag[b][0]]:
+                    if want is not None and known[sw_tag[b][0]] not in want:
                         continue
                 st = (t, state)
                 if st not in seen:
@@ -486,7 +578,9 @@ class Body:
 
     def live_blocks(self):
         """Blocks reachable from entry on normal paths."""
-        return self.reachable_blocks(0)
+        if getattr(self, "_live", None) is None:
+            self._live = self.reachable_blocks(0)
+        return self._live
 
     # ---- definitions
     def defs(self):
@@ -614,6 +708,17 @@ class Body:
                             pl = op.get("move") or op.get("copy")
                             if pl is not None and not pl["p"] and pl["l"] in refs and self.locals[refs[pl["l"]]].get("user"):
                                 out.add(refs[pl["l"]])
+            # a scalar `let mut n` / `let mut flag` handed to a call as `&mut n` may be rewritten by the callee
+            scalars = ("u8", "u16", "u32", "u64", "u128", "usize", "i8", "i16", "i32", "i64", "i128", "isize", "bool")
+            for bi, b in enumerate(self.blocks):
+                if b["cleanup"] or b["term"]["k"] != "call":
+                    continue
+                for op in b["term"]["args"]:
+                    pl = op.get("move") or op.get("copy")
+                    if pl is not None and not pl["p"] and pl["l"] in refs:
+                        root = refs[pl["l"]]
+                        if self.locals[root].get("user") and self.types.s(self.locals[root]["ty"]) in scalars:
+                            out.add(root)
             self._cm = out
         return self._cm
 
